@@ -71,8 +71,8 @@ PROPS = {
         "assumptions": ["file replica client only", "litestream's background monitors are off; the harness is the only caller (schedules at statement granularity)",
                         "reference image = SQLite's own recovery+checkpoint of a copy of (db, db-wal)"],
         "runs": [
-            {"name": "histories", "test": "TestProp_C01", "kind": "rapid", "checks_quick": 600, "checks_thorough": 5000, "shards": 6},
-            {"name": "interleaved", "test": "TestProp_C01I", "kind": "rapid", "checks_quick": 400, "checks_thorough": 5000, "shards": 6},
+            {"name": "histories", "test": "TestProp_C01", "kind": "rapid", "checks_quick": 600, "checks_thorough": 1800, "shards": 6},
+            {"name": "interleaved", "test": "TestProp_C01I", "kind": "rapid", "checks_quick": 400, "checks_thorough": 1800, "shards": 6},
         ],
     },
     "C02": {
@@ -92,7 +92,7 @@ PROPS = {
         "assumptions": ["schedules are enumerated at statement granularity (the granularity at which SQLite makes frames visible); preemptive concurrency is C12's",
                         "file replica client only"],
         "runs": [
-            {"name": "histories", "test": "TestProp_C02", "kind": "rapid", "checks_quick": 400, "checks_thorough": 5000, "shards": 6},
+            {"name": "histories", "test": "TestProp_C02", "kind": "rapid", "checks_quick": 400, "checks_thorough": 2000, "shards": 6},
         ],
     },
     "C20": {
@@ -130,7 +130,7 @@ PROPS = {
         "assumptions": ["mutations named in the property only; frames with page number 0 or impossible page sizes but valid checksums are not generated"],
         "runs": [
             {"name": "corpus-identity", "test": "TestCorpus_C09", "kind": "plain", "shards": 1},
-            {"name": "mutations", "test": "TestProp_C09", "kind": "rapid", "checks_quick": 60000, "checks_thorough": 1500000},
+            {"name": "mutations", "test": "TestProp_C09", "kind": "rapid", "checks_quick": 60000, "checks_thorough": 600000},
             {"name": "nativefuzz", "test": "FuzzC09", "kind": "fuzz", "tiers": ["thorough"], "shards": 1, "fuzztime_thorough": "600s", "cwd": "harness/props", "timeout_thorough": 1200},
         ],
     },
@@ -149,7 +149,7 @@ PROPS = {
                  "distinct = hash of (config, abstracted ops, k)."),
         "assumptions": ["monitors off: the harness issues the syncs", "CheckpointInterval only takes values whose outcome is independent of test speed"],
         "runs": [
-            {"name": "histories", "test": "TestProp_C13", "kind": "rapid", "checks_quick": 500, "checks_thorough": 10000, "shards": 6},
+            {"name": "histories", "test": "TestProp_C13", "kind": "rapid", "checks_quick": 500, "checks_thorough": 5000, "shards": 6},
         ],
     },
     "C14": {
@@ -166,7 +166,7 @@ PROPS = {
                  "litestream checkpoint ran including a PASSIVE one (barrier transaction rolled back); distinct = hash of (config, abstracted ops)."),
         "assumptions": ["busy results of application RESTART/TRUNCATE checkpoints may differ (documented effect of litestream's read lock) and are not compared"],
         "runs": [
-            {"name": "paired-histories", "test": "TestProp_C14", "kind": "rapid", "checks_quick": 400, "checks_thorough": 6000, "shards": 6},
+            {"name": "paired-histories", "test": "TestProp_C14", "kind": "rapid", "checks_quick": 400, "checks_thorough": 2500, "shards": 6},
         ],
     },
     "C06": {
@@ -183,7 +183,7 @@ PROPS = {
                  "distinct = hash of (config, abstracted ops)."),
         "assumptions": ["file replica client only"],
         "runs": [
-            {"name": "histories", "test": "TestProp_C06", "kind": "rapid", "checks_quick": 400, "checks_thorough": 8000, "shards": 6},
+            {"name": "histories", "test": "TestProp_C06", "kind": "rapid", "checks_quick": 400, "checks_thorough": 3000, "shards": 6},
         ],
     },
     "C07": {
@@ -200,7 +200,7 @@ PROPS = {
                  "hash of (config, abstracted ops)."),
         "assumptions": ["file replica client only"],
         "runs": [
-            {"name": "histories", "test": "TestProp_C07", "kind": "rapid", "checks_quick": 400, "checks_thorough": 8000, "shards": 6},
+            {"name": "histories", "test": "TestProp_C07", "kind": "rapid", "checks_quick": 400, "checks_thorough": 3000, "shards": 6},
         ],
     },
     "C15": {
@@ -217,7 +217,7 @@ PROPS = {
                  "distinct = hash of (config, abstracted ops, target picks)."),
         "assumptions": ["file replica client: CreatedAt is the file mtime set from the LTX header timestamp"],
         "runs": [
-            {"name": "histories", "test": "TestProp_C15", "kind": "rapid", "checks_quick": 300, "checks_thorough": 5000, "shards": 6},
+            {"name": "histories", "test": "TestProp_C15", "kind": "rapid", "checks_quick": 300, "checks_thorough": 2000, "shards": 6},
         ],
     },
     "C04": {
@@ -233,7 +233,7 @@ PROPS = {
                  "rm-meta, reset-offline}. Non-trivial = an episode missed at least one commit that modified an existing page; distinct = hash of (config, abstracted ops)."),
         "assumptions": ["file replica client only", "litestream never runs concurrently with the down-time sub-history (that is what 'down' means)"],
         "runs": [
-            {"name": "histories", "test": "TestProp_C04", "kind": "rapid", "checks_quick": 500, "checks_thorough": 6000, "shards": 6},
+            {"name": "histories", "test": "TestProp_C04", "kind": "rapid", "checks_quick": 500, "checks_thorough": 3000, "shards": 6},
         ],
     },
     "C05": {
@@ -249,7 +249,7 @@ PROPS = {
                  "acknowledged; distinct = hash of (config, abstracted ops, plan)."),
         "assumptions": ["file replica client underneath the injector", "monitors off: the retry loops exercised are SyncAndWait's caller-driven retries and Close's shutdown retry"],
         "runs": [
-            {"name": "histories", "test": "TestProp_C05", "kind": "rapid", "checks_quick": 400, "checks_thorough": 5000, "shards": 6},
+            {"name": "histories", "test": "TestProp_C05", "kind": "rapid", "checks_quick": 400, "checks_thorough": 2500, "shards": 6},
         ],
     },
     "C10": {
@@ -267,7 +267,7 @@ PROPS = {
                  "integrity scenario; distinct = hash of (history, damages)."),
         "assumptions": ["file replica client", "single corruptions (one damage per restore)"],
         "runs": [
-            {"name": "damages", "test": "TestProp_C10", "kind": "rapid", "checks_quick": 240, "checks_thorough": 6000, "shards": 6},
+            {"name": "damages", "test": "TestProp_C10", "kind": "rapid", "checks_quick": 240, "checks_thorough": 3000, "shards": 6},
             {"name": "enumerate-offsets", "test": "TestEnum_C10", "kind": "plain", "shards_quick": 6, "shards_thorough": 8,
              "env": {"VERIF_ENUM": "1"}, "env_quick": {"VERIF_ENUM_REPLICAS": "1", "VERIF_ENUM_STRIDE": "7"}, "env_thorough": {"VERIF_ENUM_REPLICAS": "6", "VERIF_ENUM_STRIDE": "1"}},
         ],
@@ -286,7 +286,7 @@ PROPS = {
                  "unlink of an LTX file in the trace is one evaluation. Non-trivial = the trace contains a checked rename and reached a success ACK; distinct = hash of the scenario."),
         "assumptions": ["x86_64 Linux ptrace", "lsdriver executes one command at a time on one goroutine"],
         "runs": [
-            {"name": "scenarios", "test": "TestProp_C11", "kind": "rapid", "checks_quick": 150, "checks_thorough": 3000, "shards": 8},
+            {"name": "scenarios", "test": "TestProp_C11", "kind": "rapid", "checks_quick": 150, "checks_thorough": 1000, "shards": 8},
         ],
     },
     "C03": {
@@ -302,7 +302,7 @@ PROPS = {
                  "fixed scenarios x every k in 1..N (thorough) or every 9th k (quick). Non-trivial = the kill landed inside a command after 'open'; distinct = hash of (scenario, k)."),
         "assumptions": ["x86_64 Linux ptrace", "lsdriver executes one command at a time on one goroutine, so its syscall sequence is deterministic up to Go runtime noise"],
         "runs": [
-            {"name": "generated", "test": "TestProp_C03", "kind": "rapid", "checks_quick": 48, "checks_thorough": 1200, "shards": 8},
+            {"name": "generated", "test": "TestProp_C03", "kind": "rapid", "checks_quick": 48, "checks_thorough": 600, "shards": 8},
             {"name": "enumerate-kill-points", "test": "TestEnum_C03", "kind": "plain", "shards": 8, "env": {"VERIF_ENUM": "1"},
              "env_quick": {"VERIF_ENUM_STRIDE": "9"}, "env_thorough": {"VERIF_ENUM_STRIDE": "1"}},
         ],
@@ -320,7 +320,7 @@ PROPS = {
                  "from a higher level, or a kill landed inside applyLTXFile (before a pwrite/fsync/ftruncate on the follower database); distinct = hash of the case."),
         "assumptions": ["x86_64 Linux ptrace", "file replica client", "convergence wait bounded by 4000 polls of 2 ms with a static replica"],
         "runs": [
-            {"name": "schedules", "test": "TestProp_C16", "kind": "rapid", "checks_quick": 64, "checks_thorough": 2000, "shards": 8},
+            {"name": "schedules", "test": "TestProp_C16", "kind": "rapid", "checks_quick": 64, "checks_thorough": 800, "shards": 8},
         ],
     },
     "C19": {
@@ -336,7 +336,7 @@ PROPS = {
                  "Non-trivial = >=2 indices after the snapshot with a WAL split into >=2 segments, or a segment removed, or both formats present; distinct = hash of the case."),
         "assumptions": ["file replica client (CreatedAt = file mtime)", "segments end at commit boundaries, as 0.3.x produced them"],
         "runs": [
-            {"name": "layouts", "test": "TestProp_C19", "kind": "rapid", "checks_quick": 2400, "checks_thorough": 40000, "shards": 8},
+            {"name": "layouts", "test": "TestProp_C19", "kind": "rapid", "checks_quick": 2400, "checks_thorough": 15000, "shards": 8},
         ],
     },
     "C18": {
@@ -352,7 +352,7 @@ PROPS = {
                  "previous commit, or a poll ran after the level-0 files it would have read were compacted away; distinct = hash of the case."),
         "assumptions": ["file replica client", "build tags verif,vfs with cgo"],
         "runs": [
-            {"name": "histories", "test": "TestProp_C18", "kind": "rapid", "checks_quick": 400, "checks_thorough": 12000, "shards": 6},
+            {"name": "histories", "test": "TestProp_C18", "kind": "rapid", "checks_quick": 400, "checks_thorough": 4000, "shards": 6},
         ],
     },
     "C17": {
@@ -384,7 +384,7 @@ PROPS = {
                  "overlapped in time (measured from start/end of operations, used for classification only); distinct = hash of the case."),
         "assumptions": ["the OS/Go scheduler chooses the interleavings", "watchdog bounds (45 s per operation, 90 s for Close) exceed observed maxima by two orders of magnitude"],
         "runs": [
-            {"name": "stress", "test": "TestProp_C12", "kind": "rapid", "checks_quick": 96, "checks_thorough": 4000, "shards": 8, "confirm": False, "shrinktime": "0s",
+            {"name": "stress", "test": "TestProp_C12", "kind": "rapid", "checks_quick": 96, "checks_thorough": 1200, "shards": 8, "confirm": False, "shrinktime": "0s",
              "gomaxprocs": 16, "env": {"GORACE": "halt_on_error=1 exitcode=66"}},
         ],
     },
